@@ -75,18 +75,26 @@ Fixpoint assoc_v (k : str) (m : list (str * value)) : option value :=
   end.
 
 (* deepEqual.Calc: lists element-wise (List.Equals), maps key-wise (Map.Equals: sizes, then every
-   entry of a looked up in b), scalars by the matrix; elements are compared deeply as well.
-   (Map.Equals passes the other map's value first to the element comparison; the outcome does not
-   depend on the direction - see veq_sym - and the model keeps the receiver's value first so that
-   the recursion is structural.) *)
-Fixpoint veq (a b : value) {struct a} : res bool :=
+   entry of the receiver in its iteration order, looked up in the other map), scalars by the matrix;
+   elements are compared deeply as well.
+   Map.Equals hands the OTHER map's value to the element comparison first: equal(st, o, v).  With
+   nested maps the roles of receiver and argument therefore alternate from level to level, and the
+   receiver decides the order in which entries are visited - which is observable, because the
+   comparison stops at the first entry that is not equal (false) or not comparable (error):
+     {a:{a:1,b:"x"}} = {a:{b:1,a:2}}   is an error,   {a:{b:1,a:2}} = {a:{a:1,b:"x"}}   is false.
+   [veqd sw a b] is structurally recursive on a and computes equal(a,b) for sw = false and
+   equal(b,a) for sw = true; in the second case the entries of b are visited and looked up in a
+   (the inner [find] returns the comparison on the entry of a directly, so that the recursion stays
+   structural).  Sem/OpsProofs.v proves veqd true a b = veqd false b a and the unfolding equations
+   veq_list_eq / veq_map_eq, which read exactly like the Go code. *)
+Fixpoint veqd (sw : bool) (a b : value) {struct a} : res bool :=
   match a, b with
   | VList la, VList lb =>
       if negb (Nat.eqb (length la) (length lb)) then Ok false else
       (fix go (la lb : list value) : res bool :=
          match la, lb with
          | x :: la', y :: lb' =>
-             match veq x y with
+             match veqd sw x y with
              | Ok true => go la' lb'
              | r => r
              end
@@ -94,21 +102,43 @@ Fixpoint veq (a b : value) {struct a} : res bool :=
          end) la lb
   | VMap ma, VMap mb =>
       if negb (Nat.eqb (length ma) (length mb)) then Ok false else
-      (fix go (ma : list (str * value)) : res bool :=
-         match ma with
-         | (k, v) :: ma' =>
-             match assoc_v k mb with
-             | Some o =>
-                 match veq v o with
-                 | Ok true => go ma'
-                 | r => r
-                 end
-             | None => Ok false
-             end
-         | [] => Ok true
-         end) ma
-  | _, _ => eq_scalar a b
+      if sw then
+        (* equal(b,a) = b.Equals(a): entries (k,vb) of b in b's order; o := a.Get(k); equal(o, vb) *)
+        (fix gob (mb : list (str * value)) : res bool :=
+           match mb with
+           | (k, vb) :: mb' =>
+               (fix find (m : list (str * value)) : res bool :=
+                  match m with
+                  | (k', o) :: m' =>
+                      if str_eqb k k' then
+                        match veqd false o vb with
+                        | Ok true => gob mb'
+                        | r => r
+                        end
+                      else find m'
+                  | [] => Ok false
+                  end) ma
+           | [] => Ok true
+           end) mb
+      else
+        (* equal(a,b) = a.Equals(b): entries (k,v) of a in a's order; o := b.Get(k); equal(o, v) *)
+        (fix go (ma : list (str * value)) : res bool :=
+           match ma with
+           | (k, v) :: ma' =>
+               match assoc_v k mb with
+               | Some o =>
+                   match veqd true v o with
+                   | Ok true => go ma'
+                   | r => r
+                   end
+               | None => Ok false
+               end
+           | [] => Ok true
+           end) ma
+  | _, _ => if sw then eq_scalar b a else eq_scalar a b
   end.
+
+Definition veq (a b : value) : res bool := veqd false a b.
 
 (* fg.equal as used by switch, ~ and groupByEqual *)
 Definition equal_fg (a b : value) : res bool := veq a b.
@@ -195,6 +225,14 @@ Fixpoint contains_all (l : list value) (look : list value) : res bool :=
       end
   end.
 
+(* containsAllItems answers false without looking at any element when the list's items are already
+   materialised (itemsPresent: literals, argument lists built with NewList, lists that have been
+   evaluated before) and there are fewer of them than items looked for; a lazy list is iterated, so
+   an incomparable element is an error there:  [1,"a"] ~ ["a"] is false, [1,"a"] ~ ["a"].map(e->e)
+   is an error.  Lists of the core model are materialised. *)
+Definition contains_all_repr (present : bool) (l look : list value) : res bool :=
+  if present && (Nat.ltb (length l) (length look)) then Ok false else contains_all l look.
+
 (* ---------- maps: Merge ---------- *)
 
 (* Map.Merge: the duplicate check remembers the colliding key in a string and tests it against "" *)
@@ -255,7 +293,7 @@ Definition calc (op : name) (a b : value) : res value :=
     match b with
     | VList l =>
         match a with
-        | VList search => rbool (contains_all l search)
+        | VList search => rbool (contains_all_repr true l search)
         | _ => rbool (contains_item a l)
         end
     | VMap m =>
